@@ -46,6 +46,10 @@ type Gen struct {
 	// the EXPIRE family, whose argument the proposer does not validate; DurOKPool:
 	// valid durations for SET EX / SETEX / SETIFEQ EX).
 	DurPool, DurOKPool []string
+	// HLLDel: probability that Next returns a command of the directed family
+	// "PFADD on a dedicated HLL key / DEL of that key" (DEL is then the only
+	// KV-level command that ever touches a HyperLogLog key).
+	HLLDel float64
 	// Exclude: command names that Next never returns (it draws again).
 	Exclude map[string]bool
 }
@@ -146,6 +150,21 @@ func (g *Gen) Next() GenCmd {
 func (g *Gen) next() GenCmd {
 	t, k := g.table(), g.key()
 	a1 := NsKey(DefaultNamespaceBase, []byte(t), []byte(k))
+	if g.HLLDel > 0 && g.chance(g.HLLDel) {
+		hk := NsKey(DefaultNamespaceBase, []byte(g.Tables[0]), []byte(g.pick(g.HLLKeys)))
+		switch w := g.R.Intn(100); {
+		case w < 50:
+			return GenCmd{mk("pfadd", hk, g.members(1, 4)...), "hll", ""}
+		case w < 85:
+			return GenCmd{mk("del", hk), "kv", ""}
+		default:
+			c := Cmd{Args: [][]byte{[]byte("del"), a1, hk}}
+			if g.chance(0.5) {
+				c.Args[1], c.Args[2] = c.Args[2], c.Args[1]
+			}
+			return GenCmd{c, "multi", ""}
+		}
+	}
 	// weights: batchable KV writes are frequent (they are what batches are made of)
 	switch w := g.R.Intn(100); {
 	case w < 14: // set (batchable)
